@@ -25,6 +25,7 @@ from typing import Any
 
 from happysimulator.core.entity import Entity
 from happysimulator.core.event import Event
+from happysimulator.core.sim_future import SimFuture
 
 logger = logging.getLogger(__name__)
 
@@ -162,9 +163,11 @@ class Semaphore(Entity):
         enqueue_time = self._clock.now.nanoseconds if self._clock else 0
 
         acquired = [False]
+        wake = SimFuture()
 
         def on_wake():
             acquired[0] = True
+            wake.resolve()
 
         waiter = _Waiter(count=count, callback=on_wake, enqueue_time_ns=enqueue_time)
         self._waiters.append(waiter)
@@ -173,8 +176,9 @@ class Semaphore(Entity):
         if len(self._waiters) > self._peak_waiters:
             self._peak_waiters = len(self._waiters)
 
+        # Park until woken by release() (no events are scheduled while waiting)
         while not acquired[0]:
-            yield 0.0
+            yield wake
 
         self._acquisitions += count
 
